@@ -62,7 +62,7 @@ def build_url(spec: dict[str, Any]) -> str:
     if spec.get("userinfo"):
         ui = f"{S_USER}:{S_PW}@" if spec["userinfo"] is True else {"user": f"{S_USER}@", "pw": f":{S_PW}@"}[spec["userinfo"]]
     q = []
-    if spec["kind"] == "presigned":
+    if spec["kind"] == "presigned" or spec.get("presigned_query"):
         q = ["X-Amz-Algorithm=AWS4-HMAC-SHA256", f"X-Amz-Credential={S_CRED}", "X-Amz-Expires=60", f"X-Amz-Signature={S_SIG}"]
     elif spec["kind"] == "sigv2":
         q = [f"AWSAccessKeyId={S_CRED}", "Expires=1700000000", f"Signature={S_SIG}"]
@@ -78,7 +78,7 @@ def url_secrets(spec: dict[str, Any]) -> dict[str, str]:
         out["userinfo-user"] = S_USER
     if spec.get("userinfo") in (True, "pw"):
         out["userinfo-password"] = S_PW
-    if spec["kind"] in ("presigned", "sigv2"):
+    if spec["kind"] in ("presigned", "sigv2") or spec.get("presigned_query"):
         out["query-signature"] = S_SIG
         out["query-credential"] = S_CRED
         out["query-credential-decoded"] = S_CRED_DECODED
@@ -89,7 +89,7 @@ def url_secrets(spec: dict[str, Any]) -> dict[str, str]:
     return out
 
 
-def make_object(spec: dict[str, Any]) -> tuple[bytes, bytes, str]:
+def make_object(spec: dict[str, Any]) -> tuple[bytes | None, bytes, str]:
     """Returns (RAW, STORED, content_encoding_header).  Encoders are the libraries, not the repo's helpers."""
     n = spec["n"]
     if spec.get("fill") == "zeros":
@@ -118,7 +118,24 @@ def make_object(spec: dict[str, Any]) -> tuple[bytes, bytes, str]:
     if spec.get("corrupt") is not None:
         k = spec["corrupt"] % len(stored)
         stored = stored[:k] + bytes([stored[k] ^ 0x5A]) + stored[k + 1 :]
+        raw = reference_decode(enc, stored)  # type: ignore[assignment]
     return raw, stored, spec.get("ce", ce)
+
+
+def reference_decode(enc: str, stored: bytes) -> bytes | None:
+    """What the stored (possibly damaged) entity decodes to according to the codec library; None = undecodable."""
+    try:
+        if enc == "gzip":
+            d = zlib.decompressobj(31)
+            out = d.decompress(stored) + d.flush()
+            return out if d.eof else None
+        if enc.startswith("zstd"):
+            import zstandard
+
+            return zstandard.ZstdDecompressor().decompressobj().decompress(stored)
+        return stored
+    except Exception:  # noqa: BLE001 - the library rejects the frame
+        return None
 
 
 class Req:
@@ -132,6 +149,7 @@ class Req:
         self.auto = False
         self.released = False
         self.answered = False
+        self.attempt = 0
 
 
 class _ReqInfo:
@@ -175,7 +193,7 @@ class FakeStream:
         if self.pos >= len(self.data):
             if self.end != "eof" and not self.finished:
                 self.finished = True
-                raise make_exc(self.end, self.req.url)
+                raise self.origin.raising(self.end, self.req, "midbody")
             self.finished = True
             return b""
         k = len(self.data) - self.pos
@@ -274,6 +292,7 @@ class Origin:
         self.consulted: set[str] = set()
         self.attempts: dict[Any, int] = {}
         self.validated: list[str] = []
+        self.raised: list[tuple[BaseException, str]] = []
         self.inflight = 0
         self.max_inflight = 0
         sched = script.get("sched", {})
@@ -336,6 +355,11 @@ class Origin:
         return out
 
     # ---- request handling -------------------------------------------------------------
+    def raising(self, kind: str, req: Req, phase: str) -> BaseException:
+        e = make_exc(kind, req.url)
+        self.raised.append((e, f"{phase}-{kind}"))
+        return e
+
     def dts_for(self, req: Req) -> tuple[float, ...]:
         return self.chunk_dts if req.cls == "chunk" else (0.0,)
 
@@ -366,6 +390,9 @@ class Origin:
             r.node = self.nodes.get((p.scheme, p.hostname or "", p.path), -1)
         except ValueError:
             r.node = -1
+        key = (r.cls, r.range, r.node)  # attempts are numbered in issue order: 0 = original, 1.. = hedges / retries
+        r.attempt = self.attempts.get(key, 0)
+        self.attempts[key] = r.attempt + 1
         self.requests.append(r)
         return r
 
@@ -385,9 +412,6 @@ class Origin:
 
     def respond(self, req: Req, req_headers: Any) -> FakeResponse:
         """Build the response for *req* (may raise the scripted connection-level exception)."""
-        key = (req.cls, req.range, req.node)
-        req.attempt = self.attempts.get(key, 0)
-        self.attempts[key] = req.attempt + 1
         if req.node < 0:  # a host the origin script does not own (rejected targets): serve bait
             return self._mk(req, req_headers, 200, {}, b"EVIL-BAIT", "eof", 64)
         applies = self.chain_on == "all" or self.chain_on == req.cls
@@ -423,7 +447,7 @@ class Origin:
     def _probe(self, req: Req, rh: Any) -> FakeResponse:
         sp = self._spec("probe", req)
         if sp.get("exc"):
-            raise make_exc(sp["exc"], req.url)
+            raise self.raising(sp["exc"], req, "request")
         n = len(self.stored)
         if req.method == "HEAD":
             st = sp.get("st", 200)
@@ -460,7 +484,7 @@ class Origin:
     def _data(self, req: Req, rh: Any) -> FakeResponse:
         sp = self._spec("data", req)
         if sp.get("exc"):
-            raise make_exc(sp["exc"], req.url)
+            raise self.raising(sp["exc"], req, "request")
         st = sp.get("st", 200)
         if st != 200:
             return self._mk(req, rh, st, {}, b"error-body", "eof", 64)
@@ -479,7 +503,7 @@ class Origin:
     def _chunk(self, req: Req, rh: Any) -> FakeResponse:
         sp = self._spec("chunks", req)
         if sp.get("exc"):
-            raise make_exc(sp["exc"], req.url)
+            raise self.raising(sp["exc"], req, "request")
         n = len(self.stored)
         a, b = req.range  # type: ignore[misc]
         st = sp.get("st", 206)
@@ -499,6 +523,8 @@ class Origin:
             sb = min(n - 1, b + 2) if b + 1 < n else b
             if sb == b:
                 declared = False  # nothing beyond the object: append junk after the declared range
+        elif mode == "rest":  # range end ignored: everything up to the end of the object, honestly labelled
+            sb = n - 1
         elif mode == "longjunk":
             declared = False
         elif mode == "empty":
